@@ -549,12 +549,24 @@ fn main() {
                     },
                 }
             },
-            "A" | "AC" | "AN" => {
+            "A" | "AC" | "AN" | "AO" => {
                 let es: Vec<String> = args.iter().skip(1).map(|x| unhex(x)).collect();
                 let r = match cmd {
                     "A" => wax::any(es.iter().map(|x| x.as_str())),
                     "AC" => {
                         let gs: Result<Vec<Glob<'_>>, _> = es.iter().map(|x| Glob::new(x)).collect();
+                        match gs {
+                            Ok(gs) => wax::any(gs),
+                            Err(e) => Err(e),
+                        }
+                    },
+                    "AO" => {
+                        // compiled globs that OWN their expression: into_owned for the first, FromStr for the others
+                        let gs: Result<Vec<Glob<'static>>, _> = es
+                            .iter()
+                            .enumerate()
+                            .map(|(i, x)| if i == 0 { Glob::new(x).map(|g| g.into_owned()) } else { Glob::from_str(x) })
+                            .collect();
                         match gs {
                             Ok(gs) => wax::any(gs),
                             Err(e) => Err(e),
